@@ -169,6 +169,9 @@ type expect struct {
 	Rows     int      // rows the request carries
 	Times    []int64  // expected stored time values (µs), when known
 	Unusual  string   // "", "underscore", "empty", "reserved-time", "reserved"
+	// imports: every column of the uploaded file, under its RAW header name, with these int64 cell values
+	ImportEp string
+	ColVals  map[string][]int64
 }
 
 type seqSpec struct {
@@ -827,10 +830,11 @@ type storedInfo struct {
 	rows  int64
 	cols  map[string]bool
 	times []int64
+	ints  map[string][]int64 // int64 columns by name (all files, sorted)
 }
 
 func (s *server) storedUnder(prefix string) storedInfo {
-	info := storedInfo{cols: map[string]bool{}}
+	info := storedInfo{cols: map[string]bool{}, ints: map[string][]int64{}}
 	s.store.mu.Lock()
 	var datas [][]byte
 	for p, d := range s.store.files {
@@ -862,6 +866,15 @@ func (s *server) storedUnder(prefix string) storedInfo {
 			defer tbl.Release()
 			for i := 0; i < int(tbl.NumCols()); i++ {
 				if tbl.Column(i).Name() != "time" {
+					for _, ch := range tbl.Column(i).Data().Chunks() {
+						if ia, ok := ch.(*array.Int64); ok {
+							for j := 0; j < ia.Len(); j++ {
+								if !ia.IsNull(j) {
+									info.ints[tbl.Column(i).Name()] = append(info.ints[tbl.Column(i).Name()], ia.Value(j))
+								}
+							}
+						}
+					}
 					continue
 				}
 				for _, ch := range tbl.Column(i).Data().Chunks() {
@@ -876,6 +889,9 @@ func (s *server) storedUnder(prefix string) storedInfo {
 		})
 	}
 	sort.Slice(info.times, func(i, j int) bool { return info.times[i] < info.times[j] })
+	for _, v := range info.ints {
+		sort.Slice(v, func(i, j int) bool { return v[i] < v[j] })
+	}
 	return info
 }
 
@@ -1190,6 +1206,33 @@ func (rn *runner) checkStored(srv *server, sq *seqSpec, accs []accReq, touched m
 		unusual := ""
 		timesKnown := true
 		for _, e := range exps {
+			if e.ImportEp != "" {
+				// an accepted import: every column of the file is stored under its raw header name with its values
+				for col, want := range e.ColVals {
+					padded := strings.TrimSpace(col) != col
+					cls := "other"
+					if padded {
+						cls = "padded-header-name"
+					}
+					got, have := info.ints[col]
+					if !info.cols[col] || !have {
+						rn.c.Fail("import-column-lost:"+e.ImportEp+":"+cls,
+							fmt.Sprintf("%s import answered 2xx, but column %q of the uploaded file is in no stored Parquet file of %s (stored columns: %v) - neither stored nor rejected", e.ImportEp, col, k, keysOf(info.cols)), sq.replayText())
+						continue
+					}
+					w := append([]int64(nil), want...)
+					sort.Slice(w, func(i, j int) bool { return w[i] < w[j] })
+					same := len(w) == len(got)
+					for i := 0; same && i < len(w); i++ {
+						same = w[i] == got[i]
+					}
+					if !same {
+						rn.c.Fail("import-column-values-wrong:"+e.ImportEp+":"+cls,
+							fmt.Sprintf("%s import answered 2xx, but column %q of %s holds %v instead of the uploaded %v", e.ImportEp, col, k, got, w), sq.replayText())
+					}
+				}
+				continue
+			}
 			rows += e.Rows
 			if e.Unusual != "" {
 				unusual = e.Unusual
@@ -1230,6 +1273,15 @@ func (rn *runner) checkStored(srv *server, sq *seqSpec, accs []accReq, touched m
 			}
 		}
 	}
+}
+
+func keysOf(m map[string]bool) []string {
+	var ks []string
+	for k := range m {
+		ks = append(ks, k)
+	}
+	sort.Strings(ks)
+	return ks
 }
 
 func (rn *runner) prefixReplay(sq *seqSpec, upto int) string {
